@@ -19,11 +19,22 @@ func l2Opts() l2.Opts {
 	return l2.Opts{StopWhenIdle: true, AutoType: true, RelativeToReg: true, MaxVirtualNs: 90_000_000_000, MaxSteps: 2_000_000}
 }
 
+// l2OptsFor: one scenario in five uses absolute arrival times, so that events can
+// arrive before the handlers are registered (the page drops those; the reference
+// is built from the events that were actually delivered).
+func l2OptsFor(sc *core.Scenario) l2.Opts {
+	o := l2Opts()
+	if sc.Index%5 == 2 && (sc.Index/5)%5 == 0 {
+		o.RelativeToReg = false
+	}
+	return o
+}
+
 func checkL2(sc *core.Scenario) (v *core.Violation, note string, a *l2.Result) {
 	if r := skipReason(sc); r != "" {
 		return nil, r, nil
 	}
-	a = l2.Run(sc, l2Opts())
+	a = l2.Run(sc, l2OptsFor(sc))
 	if len(a.Errors) > 0 && len(a.Effects) == 0 && len(a.Calls) == 0 {
 		return nil, "rejected_or_failed_at_once", a
 	}
